@@ -7,6 +7,9 @@ ids = [p["id"] for p in props]
 
 # id -> (category, technique, text, note, design_ref)
 claimed = {
+ "C03": ("model_checking", "exhaustive peer-script enumeration (nd explorer) against a reference SCRAM server / logged permission callback",
+         "Initiator: 6 client mechanism lists x 8 advertised lists x every peer script of <=3 (quick) / <=4 (thorough) steps over 14 answers, where 'correct' answers are computed by a reference RFC 5802 server from the client's actual messages; receiver: 2 mechanism lists x 3 callback behaviours x every client script over 19 messages. Only-if oracle: Authn => mechanism offered by both, completed per the reference, success signalled / callback asked and accepted.",
+         "Trusted: the 60-line reference SCRAM server, crypto primitives. mellium.im/sasl v0.3.2 hangs on an empty/attribute-less SCRAM challenge at the first step (dependency defect, outside /repo): those executions are skipped and counted. Server-side SCRAM and -PLUS cannot complete in this code base and are not explored.", "6/C03"),
  "C01": ("model_checking", "exhaustive peer-script x configuration x map-order enumeration (nd explorer) with instrumented StreamFeature callbacks; invariants on every execution",
          "10 feature archetypes with logging List/Parse/Negotiate callbacks; every configuration of <=2 (quick) / <=3 (thorough) archetypes x initial state x c2s/s2s x TCP/WebSocket; initiator: every sequence of <=2 (3) advertisements with each feature absent/present/required(/twice) and the selection loop's map iteration order enumerated (the loop is rewritten at check time to ask the explorer); receiver: every sequence of <=3 (4) selections incl. unadvertised, unknown, repeated, informational, bare or IQ-wrapped. Invariants: prerequisites at call time, advertised on the current stream, at most once, voluntary before mandatory, monotone state, restart => fresh header, established => ready and nothing mandatory pending, receiver advertises exactly the eligible features and refuses invalid selections without running them; non-terminating negotiation is reported.",
          "Trusted: the invariant checker; reactive scripted peer; map order owned through the check-time source rewrite (go build -overlay), nothing else in the library is altered.", "6/C01"),
